@@ -55,6 +55,12 @@ impl Trace {
         Trace(Arc::new(Mutex::new(Vec::new())))
     }
     fn log(&self, s: String) {
+        // PAIR_TS=1 (debugging by hand only): microseconds since the process started, after the line
+        let s = if *TS {
+            format!("{} @{}", s, START.elapsed().as_micros())
+        } else {
+            s
+        };
         self.0.lock().unwrap_or_else(|e| e.into_inner()).push(s);
     }
     fn take(&self) -> Vec<String> {
@@ -63,6 +69,8 @@ impl Trace {
 }
 
 static PANICS: Mutex<Vec<String>> = Mutex::new(Vec::new());
+static START: std::sync::LazyLock<Instant> = std::sync::LazyLock::new(Instant::now);
+static TS: std::sync::LazyLock<bool> = std::sync::LazyLock::new(|| std::env::var("PAIR_TS").is_ok());
 
 // ------------------------------------------------------------------------------------------------
 // canonical text of values
